@@ -640,6 +640,8 @@ func init() {
 		checkRefsFor(p, r)
 		// object-index keys are raw hash bytes
 		checkKeyBytewise(p, r)
+		// position lists of unaligned tables hold arbitrary offsets
+		checkAlignFree(p, r)
 		// nil contracts on the RefsFor paths
 		cg := buildCallGraph(p)
 		reach := cg.reachable(hostileRoots(p, cg))
